@@ -4,7 +4,8 @@ encoding for the Lean model, the scoping oracle and the FORD-object observation.
 Abstract scope (plain dicts, JSON-able):
   kind      module | program | function | subroutine
   name      spelling at the declaration
-  uses      [{"mod": str, "only": None | [[local, remote], ...]}]
+  uses      [{"mod": str, "only": None | [[local, remote], ...], "ren": [[local, remote], ...]}]
+            only = None: USE without ONLY; "ren" (optional) are then its renames `local => remote`
   types     [{"name", "extends": str|None, "comps": [var], "binds": [{"name","target"}],
               "deferred": [{"name","proto"}], "finals": [str]}]
   absints   [str]          abstract interface with one subroutine of that name
@@ -24,6 +25,8 @@ TY = ["ta", "tb", "tc"]
 PR = ["pa", "pb", "pc"]
 TY_REF = TY + ["td"]  # td / pd are declared nowhere
 PR_REF = PR + ["pd"]
+TY_ALIAS = "te"  # te / pe are declared nowhere either; they only occur as the local name of a rename
+PR_ALIAS = "pe"
 
 
 def spell(rng, n):
@@ -47,8 +50,32 @@ class Ctr:
 def gen_var(rng, ctr, prefix="v"):
     r = rng.random()
     if r < 0.55:
-        return {"name": ctr.next(prefix), "vk": rng.choice(["type", "type", "class"]), "proto": spell(rng, rng.choice(TY_REF))}
-    return {"name": ctr.next(prefix), "vk": "procedure", "proto": spell(rng, rng.choice(PR_REF))}
+        n = TY_ALIAS if rng.random() < 0.08 else rng.choice(TY_REF)
+        return {"name": ctr.next(prefix), "vk": rng.choice(["type", "type", "class"]), "proto": spell(rng, n)}
+    n = PR_ALIAS if rng.random() < 0.08 else rng.choice(PR_REF)
+    return {"name": ctr.next(prefix), "vk": "procedure", "proto": spell(rng, n)}
+
+
+def gen_renames(rng, again, deep):
+    """Items `local => remote` of one USE statement: remote names distinct, local names distinct
+    (a second local name for one entity / one local name for two entities is left out)."""
+    items = []
+    seen_rem, seen_loc = set(), set()
+    for _ in range(rng.choice([1, 1, 2])):
+        pool = TY if rng.random() < 0.5 else PR
+        rem = rng.choice(pool)
+        if again and rng.random() < (0.8 if deep else 0.5):
+            rem = rng.choice(again)
+            pool = TY if rem in TY else PR
+        r = rng.random()
+        alias = TY_ALIAS if pool is TY else PR_ALIAS
+        loc = alias if r < 0.5 else rng.choice([n for n in pool if n != rem])
+        if rem in seen_rem or loc in seen_loc:
+            continue
+        seen_rem.add(rem)
+        seen_loc.add(loc)
+        items.append([spell(rng, loc), spell(rng, rem)])
+    return items
 
 
 def gen_type(rng, ctr, name, earlier, local_all, cands=()):
@@ -85,8 +112,13 @@ def gen_scope(rng, ctr, kind, name, depth, nmods, visible_p, root_kind=None, ree
         for _ in range(rng.choice([1, 1, 2])):
             # innermost scopes prefer the most recent module (dependency only through a deep USE)
             m = f"m{nmods - 1}" if deep and rng.random() < 0.6 else f"m{rng.randrange(nmods)}"
-            if rng.random() < 0.25:
+            ren = []
+            if rng.random() < 0.4:
                 only = None
+                if rng.random() < 0.6:
+                    # USE without ONLY but with renames: the renamed entity is accessible under
+                    # its local name only
+                    ren = gen_renames(rng, reexp.get(m, []), deep)
             else:
                 only = []
                 seen_rem, seen_loc = set(), set()
@@ -98,7 +130,8 @@ def gen_scope(rng, ctr, kind, name, depth, nmods, visible_p, root_kind=None, ree
                         # a name the used module itself obtains by USE (re-export chains)
                         rem = rng.choice(again)
                         pool = TY if rem in TY else PR
-                    loc = rem if rng.random() < 0.7 else rng.choice(pool)
+                    r = rng.random()
+                    loc = rem if r < 0.7 else (TY_ALIAS if pool is TY else PR_ALIAS) if r < 0.8 else rng.choice(pool)
                     if rem in seen_rem or loc in seen_loc:
                         continue
                     seen_rem.add(rem)
@@ -106,13 +139,17 @@ def gen_scope(rng, ctr, kind, name, depth, nmods, visible_p, root_kind=None, ree
                     only.append([spell(rng, loc), spell(rng, rem)])
                 if not only:
                     only = None
-            s["uses"].append({"mod": spell(rng, m), "only": only})
+            u = {"mod": spell(rng, m), "only": only}
+            if ren:
+                u["ren"] = ren
+            s["uses"].append(u)
             if top and kind == "module":
                 mine = reexp.setdefault(name.lower(), [])
                 if only is None:
                     mine += list(reexp.get(m, [])) + [rng.choice(TY), rng.choice(PR)]
+                    mine += [l.lower() for l, _ in ren if l.lower() in TY + PR]
                 else:
-                    mine += [l.lower() for l, _ in only]
+                    mine += [l.lower() for l, _ in only if l.lower() in TY + PR]
     # local names
     ntypes = rng.choice([0, 1, 1, 2]) if top else rng.choice([0, 0, 1, 1, 2])
     tnames = rng.sample(TY, ntypes)
@@ -271,6 +308,188 @@ def gen_chain_project(rng):
     return {"units": units}
 
 
+def _plain_type(rng, n):
+    return {"name": spell(rng, n), "extends": None, "comps": [], "binds": [], "deferred": [], "finals": []}
+
+
+def gen_rename_project(rng):
+    """Renames on USE statements: m0 declares entities; optionally m1 obtains them by a USE with
+    renames and re-exports them; a scope S (a module / program / external procedure, or a procedure
+    nested one or two levels deep in it) use-associates them with renames - with or without ONLY -
+    typically because S or its host has an entity of the original name.  The original names, the
+    local names and undeclared names are referenced from S, from its host and from scopes nested
+    in S, in variables, components, parent types, bindings and deferred-binding interfaces."""
+    ctr = Ctr()
+    tys = rng.sample(TY, rng.choice([1, 2, 3]))
+    prs = rng.sample(PR, rng.choice([1, 2]))
+    m0 = empty_scope("module", spell(rng, "m0"))
+    for n in tys:
+        m0["types"].append(_plain_type(rng, n))
+    for n in prs:
+        r = rng.random()
+        if r < 0.5:
+            m0["kids"].append(empty_scope("subroutine", spell(rng, n)))
+        elif r < 0.8:
+            m0["absints"].append(spell(rng, n))
+        else:
+            m0["ifaces"].append(spell(rng, n))
+    names = tys + prs
+
+    def rename_use(mod, avail, force_plain=False):
+        """a USE of `mod` whose renamed remote names come (mostly) from `avail`; returns the
+        statement and the names accessible through it"""
+        r = rng.random()
+        items, seen_loc = [], set()
+        cands = list(avail)
+        rng.shuffle(cands)
+        for n in cands[:rng.choice([1, 1, 2, 3])]:
+            pool = TY if n in TY_REF + [TY_ALIAS] else PR
+            alias = TY_ALIAS if pool is TY else PR_ALIAS
+            q = rng.random()
+            loc = alias if q < 0.55 else rng.choice([x for x in pool if x != n]) if q < 0.9 else n
+            if loc in seen_loc:
+                continue
+            seen_loc.add(loc)
+            items.append([loc, n])
+        if rng.random() < 0.1:
+            pool = rng.choice([TY, PR])
+            rem = rng.choice(pool)  # possibly a name the module does not export
+            alias = TY_ALIAS if pool is TY else PR_ALIAS
+            if rem not in [x for _, x in items] and alias not in seen_loc:
+                seen_loc.add(alias)
+                items.append([alias, rem])
+        if force_plain or r < 0.12:
+            return {"mod": spell(rng, mod), "only": None}, list(avail)
+        if r < 0.75:
+            items = [it for it in items if it[0] != it[1]]
+            if not items:
+                return {"mod": spell(rng, mod), "only": None}, list(avail)
+            renamed = {x for _, x in items}
+            vis = [n for n in avail if n not in renamed] + [l for l, _ in items]
+            return {"mod": spell(rng, mod), "only": None, "ren": [[spell(rng, l), spell(rng, x)] for l, x in items]}, vis
+        return {"mod": spell(rng, mod), "only": [[spell(rng, l), spell(rng, x)] for l, x in items]}, [l for l, _ in items]
+
+    units = [m0]
+    src_mod, avail = "m0", list(names)
+    if rng.random() < 0.35:
+        m1 = empty_scope("module", spell(rng, "m1"))
+        u, avail = rename_use("m0", names)
+        m1["uses"].append(u)
+        if rng.random() < 0.3:
+            t = rng.choice(TY)
+            if t not in avail:
+                m1["types"].append(_plain_type(rng, t))
+                avail.append(t)
+        units.append(m1)
+        src_mod = "m1"
+    host_kind = rng.choice(["module", "module", "program", "subroutine"])
+    hname = {"module": "m2", "program": "prog", "subroutine": rng.choice(PR)}[host_kind]
+    host = empty_scope(host_kind, spell(rng, hname))
+
+    def refs(sc, k):
+        pool = list(dict.fromkeys(avail + names + [TY_ALIAS, PR_ALIAS, rng.choice(TY_REF), rng.choice(PR_REF)]))
+        for n in rng.sample(pool, min(len(pool), k)):
+            if n in TY_REF or n == TY_ALIAS:
+                sc["vars"].append({"name": ctr.next("v"), "vk": rng.choice(["type", "class"]), "proto": spell(rng, n)})
+            else:
+                sc["vars"].append({"name": ctr.next("v"), "vk": "procedure", "proto": spell(rng, n)})
+
+    def own_decls(sc, p, taken):
+        """entities of the original names declared by the scope itself"""
+        for n in names:
+            if rng.random() < p and n not in taken:
+                if n in TY:
+                    sc["types"].append(_plain_type(rng, n))
+                elif n != sc["name"].lower() and n not in [k["name"].lower() for k in sc["kids"]]:
+                    if rng.random() < 0.5 and sc["kind"] in ("module", "program"):
+                        sc["kids"].append(empty_scope("subroutine", spell(rng, n)))
+                    else:
+                        sc["absints"].append(spell(rng, n))
+                taken.add(n)
+
+    def rich_type(sc, local_types):
+        """a derived type of the using scope whose parent, components and bindings refer to the names"""
+        free = [n for n in TY if n not in local_types]
+        if not free:
+            return
+        t = _plain_type(rng, rng.choice(free))
+        tpool = [n for n in TY_REF + [TY_ALIAS] if n != t["name"].lower()]
+        if rng.random() < 0.5:
+            t["extends"] = spell(rng, rng.choice(tpool))
+        for _ in range(rng.choice([0, 1, 2])):
+            if rng.random() < 0.5:
+                t["comps"].append({"name": ctr.next("c"), "vk": "type", "proto": spell(rng, rng.choice(tpool))})
+            else:
+                t["comps"].append({"name": ctr.next("c"), "vk": "procedure", "proto": spell(rng, rng.choice(PR_REF + [PR_ALIAS]))})
+        if rng.random() < 0.4:
+            t["binds"].append({"name": ctr.next("b"), "target": spell(rng, rng.choice(PR_REF + [PR_ALIAS]))})
+        if rng.random() < 0.25:
+            t["deferred"].append({"name": ctr.next("b"), "proto": spell(rng, rng.choice(PR_REF + [PR_ALIAS]))})
+        sc["types"].append(t)
+
+    depth = rng.choice([0, 0, 1, 1, 2]) if host_kind == "module" else rng.choice([0, 0, 1])
+    taken_host = set()
+    if depth == 0:
+        u, vis = rename_use(src_mod, avail)
+        host["uses"].append(u)
+        # the scope's own entity of a name that was renamed away (the usual reason for the rename)
+        gone = [x.lower() for _, x in u.get("ren", [])] if u["only"] is None else [n for n in names if n not in [v.lower() for v in vis]]
+        for n in gone:
+            if rng.random() < 0.6 and n not in [v.lower() for v in vis]:
+                if n in TY:
+                    host["types"].append(_plain_type(rng, n))
+                elif n != hname:
+                    host["absints"].append(spell(rng, n))
+        if rng.random() < 0.5:
+            rich_type(host, {t["name"].lower() for t in host["types"]} | {v.lower() for v in vis})
+        refs(host, rng.choice([2, 3, 4]))
+        if host_kind != "subroutine" or rng.random() < 0.5:
+            free = [n for n in PR if n != hname and n not in [k["name"].lower() for k in host["kids"]]
+                    and n not in [a.lower() for a in host["absints"]] and n not in [v.lower() for v in vis]]
+            if free and rng.random() < 0.6:
+                kid = empty_scope("subroutine", spell(rng, free[0]))
+                own_decls(kid, 0.25, {free[0]})
+                refs(kid, rng.choice([2, 3]))
+                host["kids"].append(kid)
+    else:
+        if rng.random() < 0.3:
+            host["uses"].append(rename_use("m0", names)[0] if rng.random() < 0.5 else {"mod": spell(rng, "m0"), "only": None})
+        own_decls(host, 0.5 if not host["uses"] else 0.15, taken_host)
+        free = [n for n in PR if n != hname and n not in [k["name"].lower() for k in host["kids"]]]
+        free = [n for n in free if n not in [a.lower() for a in host["absints"]]] or free
+        outer = empty_scope(rng.choice(["subroutine", "function"]), spell(rng, free[0]))
+        if outer["kind"] == "function":
+            outer["ret"] = {"name": ctr.next("r"), "vk": "integer", "proto": None}
+        user = outer
+        if depth == 2:
+            inner_names = [n for n in PR if n != free[0]]
+            inner = empty_scope("subroutine", spell(rng, rng.choice(inner_names)))
+            outer["kids"].append(inner)
+            if rng.random() < 0.4:
+                own_decls(outer, 0.3, {free[0], inner["name"].lower()})
+            user = inner
+        u, vis = rename_use(src_mod, avail)
+        user["uses"].append(u)
+        if rng.random() < 0.4:
+            rich_type(user, {v.lower() for v in vis})
+        refs(user, rng.choice([2, 3, 4]))
+        if user is not outer and rng.random() < 0.5:
+            refs(outer, 2)
+        host["kids"].append(outer)
+        # a sibling that must see nothing of the renames
+        free2 = [n for n in PR if n != hname and n not in [k["name"].lower() for k in host["kids"]]
+                 and n not in [a.lower() for a in host["absints"]]]
+        if free2 and rng.random() < 0.5:
+            sib = empty_scope(rng.choice(["subroutine", "function"]), spell(rng, free2[0]))
+            if sib["kind"] == "function":
+                sib["ret"] = {"name": ctr.next("r"), "vk": "integer", "proto": None}
+            refs(sib, 2)
+            host["kids"].append(sib)
+        refs(host, rng.choice([1, 2, 3]))
+    units.append(host)
+    return {"units": units}
+
+
 # ------------------------------------------------------------------ rendering
 
 def render_var(v, extra=""):
@@ -301,7 +520,7 @@ def render_scope(s, out, ind=0):
     q = p + "  "
     for u in s["uses"]:
         if u["only"] is None:
-            out.append(f"{q}use {u['mod']}")
+            out.append(f"{q}use {u['mod']}" + "".join(f", {l} => {r}" for l, r in u.get("ren", [])))
         else:
             items = [l if l.lower() == r.lower() and l == r else f"{l} => {r}" for l, r in u["only"]]
             out.append(f"{q}use {u['mod']}, only: {', '.join(items)}")
@@ -407,12 +626,10 @@ class Flat:
             self.scopes[parent]["kids"].append(sidx)
         self.tokens += ["(", s["name"], str(ent), "1" if s["kind"] == "function" else "0"]
         for u in s["uses"]:
-            if u["only"] is None:
-                self.tokens += ["U", u["mod"], "-"]
-            else:
-                self.tokens += ["U", u["mod"], str(len(u["only"]))]
-                for l, r in u["only"]:
-                    self.tokens += [l, r]
+            items = u.get("ren", []) if u["only"] is None else u["only"]
+            self.tokens += ["U", u["mod"], "a" if u["only"] is None else "o", str(len(items))]
+            for l, r in items:
+                self.tokens += [l, r]
         spath = ["/".join(f"{k}:{n}" for k, n in path)]
         for t in s["types"]:
             e = self.new_ent("type", t["name"], spath)
@@ -489,8 +706,14 @@ def oracle(F: Flat):
                 continue
             for ns in "tpa":
                 if u["only"] is None:
+                    # every public entity of the module is accessible: a renamed one by its local
+                    # name(s) ONLY, the others by their own name
+                    local_names = {}
+                    for l, r in u.get("ren", []):
+                        local_names.setdefault(r.lower(), []).append(l.lower())
                     for n, es in ex[ns].items():
-                        fr[ns].setdefault(n, set()).update(es)
+                        for ln in local_names.get(n, [n]):
+                            fr[ns].setdefault(ln, set()).update(es)
                 else:
                     for l, r in u["only"]:
                         if r.lower() in ex[ns]:
